@@ -1,3 +1,4 @@
+//go:build verifmaps
 // +build verifmaps
 
 package main
